@@ -84,6 +84,7 @@ type c04Hist struct {
 	cb       bool
 	recvd    []c04Recvd // accepted receives (for replays; after an upgrade the receipts are gone and a replay runs its callback again)
 	nextRecv uint64
+	restarted int // number of restarts from exported genesis in this history
 	upgraded int  // number of software upgrades applied in this history
 	mode     int  // 0 normal, 1 own-name witness, 2 upgrade-heavy
 	rg       *rand.Rand // PRNG of this history (sub-seed drawn from r.Rng and recorded in the `gen` line for replays)
@@ -505,6 +506,9 @@ func (h *c04Hist) doTx(kind string, to common.Address, value *big.Int, data []by
 			h.r.Count("send.ok")
 			if h.upgraded > 0 {
 				h.r.Count("send.ok.after-upgrade")
+			}
+			if h.restarted > 0 {
+				h.r.Count("send.ok.after-restart")
 			}
 			h.r.Nontrivial(strings.Join(h.ops, ";") + lf)
 		}
@@ -962,6 +966,10 @@ func (h *c04Hist) genOp(witness bool) {
 		h.doUpgrade()
 		return
 	}
+	if h.mode == 3 && len(h.ops) > 5 && rg.Intn(100) < 8 {
+		h.doRestart()
+		return
+	}
 	if h.upgraded > 0 {
 		// after an upgrade every client is gone: re-create them (as TSS clients) so that sends resume
 		if miss := h.missingClients(); len(miss) > 0 && rg.Intn(100) < 30 {
@@ -1020,6 +1028,8 @@ func (h *c04Hist) genOp(witness bool) {
 		h.doClient(name)
 	case x >= 98:
 		h.doUpgrade()
+	case x == 97:
+		h.doRestart()
 	default:
 		w.coord.CommitBlock(w.A)
 		h.r.Count("commit")
@@ -1153,6 +1163,8 @@ func TestC04(t *testing.T) {
 			mode = 1
 		case i%4 == 2: // upgrade-heavy: the software-upgrade handler runs at arbitrary points
 			mode = 2
+		case i%8 == 5: // restart-heavy: the chain is restarted from its exported genesis at arbitrary points
+			mode = 3
 		}
 		runHist(r.Rng.Int63(), mode, 5+r.Rng.Intn(hl))
 	}
